@@ -196,6 +196,12 @@ def run_property(prop, tier, a):
             errors.append('table model %s fails at %r' % (tm.target, where))
     # ---- lemma library self-check (bounded exhaustive; the lemmas are theorems)
     nl = lemmalib.selfcheck_lemmas()
+    # ---- and their Lean 4 / Mathlib proofs (compiled in the background; cached by content hash)
+    import threading
+    from pyvc import leancheck
+    lean_res = {}
+    lean_thread = threading.Thread(target=lambda: lean_res.update(leancheck.check()))
+    lean_thread.start()
     # ---- deductive units
     targets = props.targets_for(prop)
     units = []
@@ -350,6 +356,9 @@ def run_property(prop, tier, a):
     n_eval_extra = sum(v.get('evaluations', 0) for v in extra_cov.values())
     if total == 0 and not bounded_cov and not n_eval_extra:
         errors.append('zero obligations generated')
+    lean_thread.join()
+    if lean_res.get('status') == 'failed':
+        errors.append('a Lean proof of the lemma library does not check: %s' % json.dumps(lean_res.get('files'))[:300])
     # ---- report
     out = []
     for kf, key, rec in known_hits:
@@ -377,7 +386,9 @@ def run_property(prop, tier, a):
         'discharged': discharged + len(known_hits) * 0,
         'checker_cmd': './vcheck %s --tier %s' % (prop, tier),
         'trusted_base': sorted(set(assumed)) + ['pyvc VC generator (/verif/pyvc)', 'z3 %s' % z3_version(),
-                                                 'lemma library: %d hint lemmas, bounded exhaustive self-check %d evaluations' % (len(lemmalib.HINT_LEMMAS), nl)],
+                                                 'lemma library: %d hint lemmas, bounded exhaustive self-check %d evaluations; Lean 4 / Mathlib proofs of the '
+                                                 'lemma statements (lemmas/*.lean, %s theorems): %s; not proved in Lean: the ipow recurrences'
+                                                 % (len(lemmalib.HINT_LEMMAS), nl, lean_res.get('theorems', '?'), lean_res.get('status', 'not run'))],
         'samples': samples[:10] or [{'note': 'no obligation samples'}],
         'functions_under_contract': sorted(set(functions)),
         'by_backend': by_backend,
